@@ -631,6 +631,7 @@ impl Engine for CrashEngine {
             cfg.len = cfg.len.min(6);
         }
         ledger_reset();
+    crate::hashers::reset_instances();
         // 1. fault-free prefix
         crate::hashers::set_current(cfg.hasher);
         let mut g = Gen::new(rng);
@@ -758,6 +759,7 @@ impl Engine for CrashEngine {
     fn replay(&self, body: &serde_json::Value) -> Result<Option<FailRec>, String> {
         let b: CrashBody = serde_json::from_value(body.clone()).map_err(|e| e.to_string())?;
         ledger_reset();
+    crate::hashers::reset_instances();
         let (q, _m) = build_state(&b.cfg, &b.prefix)?;
         if track_level() >= 2 {
             track_line(2, &format!("B {}", serde_json::to_string(&b).unwrap()));
